@@ -280,7 +280,12 @@ func trimValidIPv6Field(s string, gotFields int, hasEllipsis bool) (withoutField
 
 	if s[fieldLen] == '.' {
 		// Probably an IPv4 in the end.
-		return "", hasEllipsis == (gotFields < maxIPv6FieldsNum-2) && isValidIPv4String(s)
+		fits := gotFields == maxIPv6FieldsNum-2
+		if hasEllipsis {
+			fits = gotFields < maxIPv6FieldsNum-2
+		}
+
+		return "", fits && isValidIPv4String(s)
 	}
 
 	return s[fieldLen:], true
